@@ -437,11 +437,13 @@ class SubchannelDemultiplex:
     def _got_open(self, t, peer_addr):
         # t is "ITransport"
         name = peer_addr.subprotocol
+        # (whether a listener happens to be registered already must not
+        # change the answer for a name outside the declared set)
+        if self._expected is not None and name not in self._expected:
+            raise UnexpectedSubprotocol()
         if name in self._factories:
             self._connect(self._factories[name], t, peer_addr)
         else:
-            if self._expected is not None and name not in self._expected:
-                raise UnexpectedSubprotocol()
             self._pending_opens[name].append((t, peer_addr))
 
     def _connect(self, factory, t, peer_addr):
